@@ -276,6 +276,11 @@ func (c *Channel) Invoke(ctx context.Context, method string, req, resp interface
 		case r, ok := <-ch:
 			if !ok {
 				// no more messages
+				if err := ctx.Err(); err != nil {
+					// the server side skips its remaining frames once the
+					// context has ended, so what arrived may be incomplete
+					return internal.TranslateContextError(err)
+				}
 				if !gotResponse {
 					return io.EOF
 				}
